@@ -55,6 +55,13 @@ nni_cv_wait(nni_cv *cv)
 int
 nni_cv_until(nni_cv *cv, nni_time until)
 {
+#ifdef NNG_VERIF
+	if ((nni_verif.clock != NULL) && (until == NNI_TIME_NEVER)) {
+		// keep timed waiters polling the virtual clock
+		(void) nni_plat_cv_until(cv, nni_verif_real_clock() + 1);
+		return (0);
+	}
+#endif
 	// Some special cases for times.  Catching these here means that
 	// platforms can assume a valid time is presented to them.
 	if (until == NNI_TIME_NEVER) {
